@@ -43,4 +43,24 @@ Section Sphero.
 
   Definition sphero_inside (r2 : T) (Fs : list (list V3)) (x : V3) : bool :=
     in_core Fs x || existsb (fun F => to_check r2 F x && check_face r2 F x) Fs.
+
+  (* ---------- a checkable certificate that the face list describes a convex solid the theorems apply to (Thm/SpheroComplete.v):
+     every face is a planar, strictly convex cycle listed counter-clockwise about its normal, without repeated consecutive vertices, and
+     along every edge there is a neighbouring face through both end points whose normal has a positive component along the outward
+     in-plane side normal e x N.  Exact in Q; its boolean is transferred to R. ---------- *)
+  Definition ctrip {A} (l : list A) : list (A * (A * A)) := combine l (combine (roll l) (roll (roll l))).
+  Definition veqb (a b : V3) : bool := oeqb O (vx a) (vx b) && oeqb O (vy a) (vy b) && oeqb O (vz a) (vz b).
+  Definition face_wfb (F : list V3) : bool :=
+    forallb (fun v => oeqb O (plane_val F v) (o0 O) && in_prism_sides F v) F
+    && forallb (fun e => negb (veqb (fst e) (snd e))) (cpairs F).
+  Definition normal_posb (F : list V3) : bool := oltb O (o0 O) (vdot O (fnormal3 F) (fnormal3 F)).
+  Definition strictly_convexb (F : list V3) : bool :=
+    forallb (fun t => oltb O (o0 O) (vdot O (fnormal3 F) (vcross O (vsub O (fst (snd t)) (fst t)) (vsub O (snd (snd t)) (fst (snd t)))))) (ctrip F).
+  Definition edge_coveredb (Fs : list (list V3)) (F : list V3) (e : V3 * V3) : bool :=
+    existsb (fun G => oeqb O (plane_val G (fst e)) (o0 O) && oeqb O (plane_val G (snd e)) (o0 O)
+                      && oltb O (o0 O) (vdot O (fnormal3 G) (vcross O (vsub O (snd e) (fst e)) (fnormal3 F)))) Fs.
+  Definition cover_certb (Fs : list (list V3)) : bool :=
+    forallb (fun F => forallb (edge_coveredb Fs F) (cpairs F)) Fs.
+  Definition sphero_certb (Fs : list (list V3)) : bool :=
+    forallb (fun F => face_wfb F && normal_posb F && strictly_convexb F) Fs && cover_certb Fs.
 End Sphero.
